@@ -335,23 +335,44 @@ func run(c *core.Ctx) {
 		q    string
 		vars []string
 		lit  string
+		typ  string
 	}{
-		{`query($b: [Int], $c: E) { TF(v: {a: 1, b: $b, c: $c}) }`, []string{"b", "c"}, "{a: 1, b: $b, c: $c}"},
-		{`query($c: E) { TF(v: {a: 1, c: $c}) }`, []string{"c"}, "{a: 1, c: $c}"},
-		{`query($i: Int) { TF(v: {a: 2, b: [1, $i]}) }`, []string{"i"}, "{a: 2, b: [1, $i]}"},
-		{`query($k: String) { TF(v: {a: 3, d: {k: $k}}) }`, []string{"k"}, "{a: 3, d: {k: $k}}"},
-		{`query($a: Int!) { TF(v: {b: [], a: $a}) }`, []string{"a"}, "{b: [], a: $a}"},
+		// the variable is not in the last field / item
+		{q: `query($a: Int!) { TF(v: {a: $a, b: [1]}) }`, vars: []string{"a"}, lit: "{a: $a, b: [1]}"},
+		{q: `query($c: E) { TF(v: {c: $c, a: 1}) }`, vars: []string{"c"}, lit: "{c: $c, a: 1}"},
+		{q: `query($k: String) { TF(v: {d: {k: $k}, a: 3, b: [2]}) }`, vars: []string{"k"}, lit: "{d: {k: $k}, a: 3, b: [2]}"},
+		{q: `query($i: Int) { TF(v: {b: [$i, 1], a: 2}) }`, vars: []string{"i"}, lit: "{b: [$i, 1], a: 2}"},
+		// variables below lists of objects and lists of lists
+		{q: `query($i: Int) { TF(v: [{a: 1, b: [$i]}, {a: 2}]) }`, vars: []string{"i"}, lit: "[{a: 1, b: [$i]}, {a: 2}]", typ: "[In]"},
+		{q: `query($a: Int!) { TF(v: [{a: $a}]) }`, vars: []string{"a"}, lit: "[{a: $a}]", typ: "[In]"},
+		{q: `query($i: Int) { TF(v: [[1, $i], [2]]) }`, vars: []string{"i"}, lit: "[[1, $i], [2]]", typ: "[[Int]]"},
+		{q: `query($i: Int) { TF(v: [[$i]]) }`, vars: []string{"i"}, lit: "[[$i]]", typ: "[[Int]]"},
+		// empty lists through variables
+		{q: `query($b: [Int]) { TF(v: {a: 1, b: $b}) }`, vars: []string{"b"}, lit: "{a: 1, b: $b}"},
+		{q: `query($l: [[Int]]) { TF(v: $l) }`, vars: []string{"l"}, lit: "$l", typ: "[[Int]]"},
+		{q: `query($b: [Int], $c: E) { TF(v: {a: 1, b: $b, c: $c}) }`, vars: []string{"b", "c"}, lit: "{a: 1, b: $b, c: $c}"},
+		{q: `query($c: E) { TF(v: {a: 1, c: $c}) }`, vars: []string{"c"}, lit: "{a: 1, c: $c}"},
+		{q: `query($i: Int) { TF(v: {a: 2, b: [1, $i]}) }`, vars: []string{"i"}, lit: "{a: 2, b: [1, $i]}"},
+		{q: `query($k: String) { TF(v: {a: 3, d: {k: $k}}) }`, vars: []string{"k"}, lit: "{a: 3, d: {k: $k}}"},
+		{q: `query($a: Int!) { TF(v: {b: [], a: $a}) }`, vars: []string{"a"}, lit: "{b: [], a: $a}"},
 	}
-	dom := map[string][]interface{}{"b": {nil, []interface{}{1, 2}}, "c": {nil, "B"}, "i": {nil, 5}, "k": {nil, "s"}, "a": {7}}
-	vtypes := map[string]*gen.TypeRef{"b": gen.ParseType("[Int]"), "c": gen.Named("E"), "i": gen.Named("Int"), "k": gen.Named("String"), "a": gen.ParseType("Int!")}
-	inIdx := -1
+	dom := map[string][]interface{}{"b": {nil, []interface{}{1, 2}, []interface{}{}}, "c": {nil, "B"}, "i": {nil, 5}, "k": {nil, "s"}, "a": {7},
+		"l": {nil, []interface{}{}, []interface{}{[]interface{}{}, []interface{}{1}}}}
+	vtypes := map[string]*gen.TypeRef{"b": gen.ParseType("[Int]"), "c": gen.Named("E"), "i": gen.Named("Int"), "k": gen.Named("String"), "a": gen.ParseType("Int!"), "l": gen.ParseType("[[Int]]")}
+	typeIdx := map[string]int{}
 	for ti, t := range w.types {
-		if t.String() == "In" {
-			inIdx = ti
-		}
+		typeIdx[t.String()] = ti
 	}
 	for ni, n := range nested {
-		if !c.Mine(ni) || inIdx < 0 {
+		if n.typ == "" {
+			n.typ = "In"
+		}
+		inIdx, ok := typeIdx[n.typ]
+		if !c.Mine(ni) {
+			continue
+		}
+		if !ok {
+			c.R.HarnessError("nested case %d: type %s is not in the type list", ni, n.typ)
 			continue
 		}
 		q := strings.Replace(n.q, "TF", fmt.Sprintf("t%d", inIdx), 1)
@@ -371,7 +392,7 @@ func run(c *core.Ctx) {
 					coerced[v] = cv
 				}
 			}
-			want := expectArgs(model.LiteralValue(w.g, gen.Named("In"), gen.ParseValue(n.lit), coerced))
+			want := expectArgs(model.LiteralValue(w.g, gen.ParseType(n.typ), gen.ParseValue(n.lit), coerced))
 			r := w.do(q, vars)
 			c.R.Evaluations++
 			c.R.States++
